@@ -82,6 +82,15 @@ def attr_values(container, name, n, cast=float):
     return [cast(a[i]) for i in range(n)]
 
 
+CONTAINERS = ("vertices", "edges", "faces", "face_corners")
+# geometry caches the library leaves on the mesh (re-used by later calls without invalidation): what the stale-cache probe clears
+GEOMETRY_CACHES = {"face_corners": ("cotan", "angles"), "faces": ("area", "normals"), "vertices": ("normals",)}
+
+
+def attr_names(m):
+    return {k: sorted(str(x) for x in getattr(m, k).attributes) for k in CONTAINERS}
+
+
 def run_case(c, mesh=None):
     """one field computation + flag_singularities; `mesh`: the mesh object of a sequence (earlier fields were computed and
     flagged on it), else a fresh one is built"""
@@ -92,6 +101,7 @@ def run_case(c, mesh=None):
     out = {}
     np.random.seed(int(c.get("seed", 0)) % (2 ** 31))
     m = build_mesh(c["V"], c["F"]) if mesh is None else mesh
+    before = attr_names(m)
     elem, order = c["elem"], int(c["order"])
     cotan = bool(c.get("cotan", True))
     kw = dict(order=order, features=bool(c["features"]), n_smooth=int(c["n_smooth"]), verbose=False, use_cotan=cotan)
@@ -210,6 +220,8 @@ def run_case(c, mesh=None):
     else:
         s = m.faces.get_attribute("singuls")
         out["singuls"] = [int(s[f]) for f in range(nF)]
+    after = attr_names(m)
+    out["new_attrs"] = {k: [x for x in after[k] if x not in before[k]] for k in CONTAINERS}
     out["vnormals"] = None
     if elem == "vertices":
         out["vnormals"] = [[float(x) for x in fld.vnormals[i]] for i in range(nV)]
@@ -222,18 +234,48 @@ def main():
     for c in payload["cases"]:
         if "seq" in c:
             # a sequence of field computations on ONE mesh object (same V, F), flagging after each
-            steps, mesh = [], None
-            for st in c["seq"]:
-                try:
-                    if mesh is None:
-                        mesh = build_mesh(st["V"], st["F"])
-                    steps.append({"ok": True, "obs": run_case(st, mesh)})
-                except Exception as ex:  # noqa
-                    steps.append({"ok": False, "error": "%s: %s" % (type(ex).__name__, ex), "trace": traceback.format_exc()[-1500:]})
+            import mouette as M
+            from mouette import config as mcfg
+            steps, mesh, curV = [], None, None
+            saved = mcfg.display_duplicate_attribute_warning
+            mcfg.display_duplicate_attribute_warning = bool(c.get("dup_warning", False))
+            try:
+                for st in c["seq"]:
+                    try:
+                        moved = False
+                        if mesh is None:
+                            mesh = build_mesh(st["V"], st["F"])
+                        elif st["V"] != curV:
+                            for v, p_ in enumerate(st["V"]):     # the caller moves the vertices of the mesh object in place
+                                mesh.vertices[v] = M.Vec(float(p_[0]), float(p_[1]), float(p_[2]))
+                            moved = True
+                        curV = st["V"]
+                        obs = run_case(st, mesh)
+                        if moved and "crash" not in obs:
+                            # probe: the same computation again on this object after clearing the geometry caches
+                            for k, names in GEOMETRY_CACHES.items():
+                                for nm in names:
+                                    if getattr(mesh, k).has_attribute(nm):
+                                        getattr(mesh, k).delete_attribute(nm)
+                            o2 = run_case(st, mesh)
+                            obs["cleared"] = {"final": o2.get("final"), "singuls": o2.get("singuls")}
+                            obs["cleared_obs"] = o2
+                        obs["moved"] = moved
+                        steps.append({"ok": True, "obs": obs})
+                    except Exception as ex:  # noqa
+                        steps.append({"ok": False, "error": "%s: %s" % (type(ex).__name__, ex), "trace": traceback.format_exc()[-1500:]})
+            finally:
+                mcfg.display_duplicate_attribute_warning = saved
             res.append({"ok": True, "steps": steps})
             continue
         try:
-            res.append({"ok": True, "obs": run_case(c)})
+            from mouette import config as mcfg
+            saved = mcfg.display_duplicate_attribute_warning
+            mcfg.display_duplicate_attribute_warning = bool(c.get("dup_warning", False))
+            try:
+                res.append({"ok": True, "obs": run_case(c)})
+            finally:
+                mcfg.display_duplicate_attribute_warning = saved
         except Exception as ex:  # noqa
             res.append({"ok": False, "error": "%s: %s" % (type(ex).__name__, ex), "trace": traceback.format_exc()[-1500:]})
     print("@@JSON " + json.dumps({"results": res}))
